@@ -214,6 +214,10 @@ def peer_ends_requestor(p: int, source: int, reason: int, release: bool) -> bool
     except exceptions.AssociationReleasedError:
         err = ('release',)
     ok = got == p and err == (('release',) if release else ('abort', source, reason))
+    if release:
+        # the body was left through an error while the association still existed: it is aborted, exactly once
+        sent = types_sent(_DulModule.created[0])
+        ok = ok and sent.count(7) == 1 and sent.count(5) == 0 and _DulModule.created[0].killed
     deep(ok and p == 1 and not release and source == 2)
     return ok
 
